@@ -82,6 +82,9 @@ class C03(spec.Spec):
             ops += [("def", s, "A"), ("def", s, "B")]
             ops += [("rq", s, p_, u, l) for p_, u, l in qns]
             ops += [("rs", s, t) for t in strs]
+            if full in ("core", "wide"):
+                # add_namespace given a Namespace OBJECT that has already minted the name which is resolved next
+                ops += [("nso", s, "ex", "A"), ("nso", s, "ex", "B")]
         self.alphabet = ops
 
     # -- machine ----------------------------------------------------------------------
@@ -110,6 +113,18 @@ class C03(spec.Spec):
             sc.default = U[op[2]]
             ref.default_touched[op[1]] = True
             c.set_default_namespace(U[op[2]])
+        elif k == "nso":
+            _, s, prefix, urikey = op
+            ns = Namespace(prefix, U[urikey])
+            q = ns["x"]  # minted before the namespace object is handed to the container
+            ref.bind_prefix(s, prefix, U[urikey])
+            c.add_namespace(ns)
+            ref.use_name(s, (urikey, "x", ("q", prefix)))
+            r = c.valid_qualified_name(q)
+            st.result = r
+            st.model_uri = U[urikey] + "x"
+            if r is not None:
+                st.handed.append((s, r))
         elif k == "rq":
             _, s, prefix, urikey, local = op
             ref.use_name(s, (urikey, local, ("q", prefix)))
@@ -187,7 +202,7 @@ class C03(spec.Spec):
             for p, uris in after.items():
                 if len(uris) > 1:
                     out.violation("b-prefix-ambiguous", op[0], {"scope": s, "prefix": p, "uris": sorted(uris)}, st.hist)
-        if op[0] == "rq":
+        if op[0] in ("rq", "nso"):
             out.nontrivial += 1
             r = st.result
             if r is None or r.uri != st.model_uri:
@@ -233,6 +248,9 @@ class C03(spec.Spec):
                 lines.append("c[%r].add_namespace(%r, %r)" % (op[1], op[2], U[op[3]]))
             elif op[0] == "def":
                 lines.append("c[%r].set_default_namespace(%r)" % (op[1], U[op[2]]))
+            elif op[0] == "nso":
+                lines.append("ns = Namespace(%r, %r); q = ns['x']; c[%r].add_namespace(ns); n = c[%r].valid_qualified_name(q); print(n, n.uri)"
+                             % (op[2], U[op[3]], op[1], op[1]))
             elif op[0] == "rq":
                 lines.append("n = c[%r].valid_qualified_name(QualifiedName(Namespace(%r, %r), %r)); print(n, n.uri)"
                              % (op[1], op[2], U[op[3]], op[4]))
